@@ -32,7 +32,12 @@ hazard_pointer<Traits>::guard_ptr<T, MarkedPtr>::guard_ptr(const MarkedPtr& p) :
 
 template <class Traits>
 template <class T, class MarkedPtr>
-hazard_pointer<Traits>::guard_ptr<T, MarkedPtr>::guard_ptr(const guard_ptr& p) : guard_ptr(p.ptr) {}
+hazard_pointer<Traits>::guard_ptr<T, MarkedPtr>::guard_ptr(const guard_ptr& p) : guard_ptr(p.ptr) {
+  if (hp != nullptr) {
+    // see guard_copy_counter
+    guard_copy_counter.fetch_add(1, std::memory_order_seq_cst);
+  }
+}
 
 template <class Traits>
 template <class T, class MarkedPtr>
@@ -60,6 +65,8 @@ auto hazard_pointer<Traits>::guard_ptr<T, MarkedPtr>::operator=(const guard_ptr&
   }
   this->ptr = p.ptr;
   hp->set_object(this->ptr.get());
+  // see guard_copy_counter
+  guard_copy_counter.fetch_add(1, std::memory_order_seq_cst);
   return *this;
 }
 
@@ -401,18 +408,28 @@ struct alignas(64) hazard_pointer<Traits>::thread_data : aligned_object<thread_d
 
     auto adopted_nodes = global_thread_block_list.adopt_abandoned_retired_nodes();
 
-    std::for_each(
-      global_thread_block_list.begin(), global_thread_block_list.end(), [&protected_pointers](const auto& entry) {
-        // TSan does not support explicit fences, so we cannot rely on the acquire-fence (9)
-        // but have to perform an acquire-load here to avoid false positives.
-        constexpr auto memory_order = TSAN_MEMORY_ORDER(std::memory_order_acquire, std::memory_order_relaxed);
-        if (entry.is_active(memory_order)) {
-          entry.gather_protected_pointers(protected_pointers);
-        }
-      });
+    // The hazard pointers are not read atomically. If a guard_ptr gets copied while we are gathering
+    // them, we have to start over (see guard_copy_counter).
+    for (;;) {
+      const auto copies = guard_copy_counter.load(std::memory_order_seq_cst);
+      std::for_each(
+        global_thread_block_list.begin(), global_thread_block_list.end(), [&protected_pointers](const auto& entry) {
+          // TSan does not support explicit fences, so we cannot rely on the acquire-fence (9)
+          // but have to perform an acquire-load here to avoid false positives.
+          constexpr auto memory_order = TSAN_MEMORY_ORDER(std::memory_order_acquire, std::memory_order_relaxed);
+          if (entry.is_active(memory_order)) {
+            entry.gather_protected_pointers(protected_pointers);
+          }
+        });
 
-    // (9) - this acquire-fence synchronizes-with the release-store (3, 5)
-    XENIUM_THREAD_FENCE(std::memory_order_acquire);
+      // (9) - this acquire-fence synchronizes-with the release-store (3, 5)
+      XENIUM_THREAD_FENCE(std::memory_order_acquire);
+
+      if (guard_copy_counter.load(std::memory_order_seq_cst) == copies) {
+        break;
+      }
+      protected_pointers.clear();
+    }
 
     std::sort(protected_pointers.begin(), protected_pointers.end());
 
